@@ -344,6 +344,21 @@ pub fn run_dispatch<N: AsRef<[Link]>>(
         );
         bail!("The following trains got stuck! {:?}", train_idxs_blocked);
     }
+    // A train whose remaining moves could only be timed at infinity never gets there: it is stuck
+    // behind a movement that never completes, so report it instead of returning its path
+    let train_idxs_stuck = train_disps[1..]
+        .iter()
+        .filter(|train_disp| {
+            train_disp
+                .calc_timed_path()
+                .iter()
+                .any(|link_idx_time| !link_idx_time.time.is_finite())
+        })
+        .map(|train_disp| train_disp.train_idx())
+        .collect::<Vec<TrainIdx>>();
+    if !train_idxs_stuck.is_empty() {
+        bail!("The following trains got stuck! {:?}", train_idxs_stuck);
+    }
     #[cfg(feature = "nrel_altrios_verif")]
     verif_hook::observe(
         "final",
